@@ -48,6 +48,10 @@ func (w *World) verifyContract(con *Contract, opts *RunOpts) (res *FuncResult) {
 		res.Assumed = true
 		return res
 	}
+	if _, ok := con.option("seq"); ok {
+		w.verifySeq(con, fn, res)
+		return res
+	}
 	e := &Exec{w: w, fnUnder: fn, conUnder: con, stats: res.Stats, callSeq: map[string]int{}, noContract: map[string]bool{}}
 	if v, ok := con.option("inline"); ok {
 		for _, f := range strings.Fields(v) {
